@@ -7,6 +7,7 @@ import (
 	"encoding/json"
 	"fmt"
 	"sort"
+	"strings"
 	"time"
 
 	"verif/mc/drive"
@@ -22,6 +23,7 @@ type rcase struct {
 	Plan     env.SourcePlan `json:"source_plan"`
 }
 
+var thoroughTier bool
 var wlCache map[string]families.Workload
 var fileCache = map[string][]byte{}
 
@@ -30,6 +32,13 @@ func workloads() map[string]families.Workload {
 		wlCache = map[string]families.Workload{}
 		for _, w := range families.Workloads([]string{"mini", "person"}, families.Codecs3()) {
 			wlCache[w.Name] = w
+		}
+		// every column type x repetition (flat24) and nested repetition
+		// (document): the multi-page layout, one codec each in quick
+		for _, w := range families.Workloads([]string{"flat24", "document"}, families.Codecs3()) {
+			if thoroughTier || (strings.HasSuffix(w.Name, "/multipage") && (strings.Contains(w.Name, "flat24/uncompressed") || strings.Contains(w.Name, "document/snappy"))) {
+				wlCache[w.Name] = w
+			}
 		}
 	}
 	return wlCache
@@ -77,6 +86,7 @@ func runPlan(w families.Workload, plan env.SourcePlan) (string, *env.Source) {
 }
 
 func run(c *fw.Ctx) {
+	thoroughTier = c.Thorough()
 	var names []string
 	for n := range workloads() {
 		names = append(names, n)
@@ -162,6 +172,7 @@ func classify(msg string) string {
 }
 
 func replay(c *fw.Ctx, kind string, data json.RawMessage) string {
+	thoroughTier = true
 	var rc rcase
 	if err := json.Unmarshal(data, &rc); err != nil {
 		return "bad case: " + err.Error()
